@@ -370,7 +370,7 @@ Definition macro_sx (s : st) : st :=
     let '(info, s4) := match assoc id (ids s3) with Some x => (x, s3) | None => (mkId [] [] 0, err "reference to unknown id" s3) end in
     let s5 := (begin_phrasing (flag "ns" o) s4) <| ws := true |> in
     let '(name, s6) := match rest with
-                       | [] => ((match id_name info with [] => id | n => n end), s5)
+                       | [] => match id_name info with [] => render_text i s5 | n => (n, s5) end
                        | _ => pim rest s5 end in
     cross_reference (mkId (id_ref info) name (id_type info)) punct s6
   end.
